@@ -240,7 +240,7 @@ Section High.
       match set_key r cols pk with
       | Err e => (Fail e, s)
       | Ok pk' =>
-        match index_scan_eq pg op npages (option record) troot pk' (fun row _ => (Stop, Some row)) None with
+        match index_scan_eq pg op npages (option record) troot pk' (fun row _ => (Stop, nonempty row)) None with   (* found = row; a nil row reads as not found *)
         | (Fail e, _) => (Fail e, s)
         | (_, None) => (Fail ECorrupt, s)
         | (_, Some found) => cb (to_row 0 ci found) s
